@@ -281,6 +281,14 @@ def get_piped_symbol(node):
     return Node(node[1:-1])
 
 
+def get_symbol_name(symbol):
+    """Returns the name that the string ``symbol`` denotes: a simple symbol
+    ``x`` and the quoted symbol ``|x|`` are one and the same symbol."""
+    if len(symbol) >= 2 and symbol[0] == '|' and symbol[-1] == '|':
+        return symbol[1:-1]
+    return symbol
+
+
 def is_operator_app(node, name):
     return node.has_ident() and node.get_ident() == name
 
